@@ -322,6 +322,61 @@ def check_remote_base(ctx):
                           {'kind': 'remote-base', 'case': c, 'impl': o, 'theorem': 'C12_decision_sound'})
 
 
+def subject_base_spelling(case):
+    """a location resolved directly against a base directory given in another spelling ('//dir' is '/dir' on POSIX, the
+    code path of UNC shares; a file URL; a trailing slash)"""
+    import xmlschema
+    root = os.path.join(str(common.BUILD), 'tmp', 'c12_%d' % os.getpid())
+    if not os.path.isdir(os.path.join(root, 'sand')):
+        make_tree(root)
+    sand = os.path.join(root, 'sand')
+    base = {'plain': sand, 'double-slash': '/' + sand, 'file-url': 'file://' + sand, 'trailing': sand + '/'}[case['base']]
+    res = {}
+
+    def go():
+        for api in ('resource', 'schema'):
+            try:
+                if api == 'resource':
+                    xmlschema.XMLResource(case['location'], base_url=base, allow=case['mode'])
+                else:
+                    xmlschema.XMLSchema('<xs:schema xmlns:xs="http://www.w3.org/2001/XMLSchema" targetNamespace="urn:t">'
+                                        '<xs:include schemaLocation="%s"/></xs:schema>' % case['location'], base_url=base, allow=case['mode'])
+                res[api] = 'ok'
+            except Exception as e:  # noqa
+                res[api] = common.exc_class(e)
+    record(go)
+    acc = set()
+    for kind, what in _EVENTS:
+        if kind == 'url' or what.startswith('file:'):
+            continue
+        p = os.path.realpath(what)
+        if p.startswith(root) and p.endswith('.xsd'):
+            relp = os.path.relpath(p, root)
+            acc.add('inside' if relp.startswith('sand' + os.sep) else 'outside')
+    res['accessed'] = sorted(acc)
+    return res
+
+
+def check_base_spelling(ctx):
+    locs = [('inc.xsd', 'inside'), ('sub/inc.xsd', 'inside'), ('../other/inc.xsd', 'outside'), ('sub/../../other/inc.xsd', 'outside'),
+            ('..%2Fother/inc.xsd', 'outside'), ('../sand_evil/inc.xsd', 'outside'), ('sub/../inc.xsd', 'inside')]
+    cases = [{'mode': m, 'base': b, 'location': l, 'class': k} for m in ('sandbox', 'local', 'none')
+             for b in ('plain', 'double-slash', 'file-url', 'trailing') for l, k in locs]
+    impl = common.pool_map(subject_base_spelling, cases, procs=4)
+    for c, o in zip(cases, impl):
+        ctx.count(('base-spelling', c['mode'], c['base'], c['location']), nontrivial=True)
+        if 'harness_exception' in o:
+            ctx.violation('subject failed: %s' % o['harness_exception'], {'kind': 'base-spelling', 'case': c}, no_input=True)
+            continue
+        ctx.dist('base spelling', '%s/%s: %s' % (c['base'], c['mode'], ','.join(o['accessed']) or 'nothing opened'))
+        allowed = allowed_classes(c['mode'])
+        bad = [k for k in o['accessed'] if k not in allowed]
+        if bad:
+            ctx.violation("allow=%r with the base directory spelled as %s: a location %s the sandbox was opened (location %r)"
+                          % (c['mode'], c['base'], bad[0], c['location']),
+                          {'kind': 'base-spelling', 'case': c, 'impl': o, 'theorem': 'C12_sandbox_componentwise'})
+
+
 def gen(ctx):
     cases = []
     modes = ['all', 'remote', 'local', 'sandbox', 'none']
@@ -363,6 +418,7 @@ def run(ctx):
                     'with a target outside the plain inside file' % (' (XSD 1.0 only for include/main in the quick tier)' if ctx.quick() else ''))
         evaluate(ctx, cases)
         check_remote_base(ctx)
+        check_base_spelling(ctx)
     finally:
         cleanup()
     ctx.assumptions = ['accesses are observed as CPython audit events open / urllib.Request inside the temporary tree',
@@ -375,6 +431,8 @@ def replay(ctx, case):
     try:
         if case.get('kind') == 'remote-base':
             check_remote_base(ctx)
+        elif case.get('kind') == 'base-spelling':
+            check_base_spelling(ctx)
         else:
             evaluate(ctx, [case['case']])
     finally:
